@@ -223,9 +223,6 @@ pub(crate) async fn handle_run<'a>(
         return Err(MonorailError::from("No configured targets"));
     }
     let mut tracking_run = get_next_tracking_run(cfg, &tracking_table)?;
-    let run_path = setup_run_path(cfg, tracking_run.id, work_path)?;
-    #[cfg(pnordahl_monorail_verif)]
-    crate::verif::point("run_after_slot_setup");
     let commands = get_all_commands(cfg, &input.commands, &input.sequences)?;
     let mut argmap = ArgMap::new();
     let mut checkpointed = false;
@@ -292,6 +289,13 @@ pub(crate) async fn handle_run<'a>(
     };
 
     argmap.merge_run_input(input)?;
+
+    // The slot of the oldest retained run is recycled only now that the invocation is known
+    // to be valid: one that is rejected (unknown target or sequence, bad argmap, ...) is not
+    // a run and must not cost a retained run its logs and result.
+    let run_path = setup_run_path(cfg, tracking_run.id, work_path)?;
+    #[cfg(pnordahl_monorail_verif)]
+    crate::verif::point("run_after_slot_setup");
 
     let plan = get_plan(
         &index,
